@@ -175,6 +175,40 @@ fn main() {
             let _ = so.flush();
             std::process::exit(code);
         }
+        b"@quit" => std::process::exit(0), // exits without touching its streams; argv[2] is only a tag
+        b"@cat" => {
+            // streaming copy stdin -> stdout (exerts back-pressure like cat); argv[2] is only a tag
+            let mut buf = vec![0u8; 4096];
+            loop {
+                let n = unsafe { libc::read(0, buf.as_mut_ptr() as *mut _, buf.len()) };
+                if n <= 0 {
+                    break;
+                }
+                let mut off = 0usize;
+                while off < n as usize {
+                    let w = unsafe { libc::write(1, buf[off..].as_ptr() as *const _, n as usize - off) };
+                    if w <= 0 {
+                        std::process::exit(1);
+                    }
+                    off += w as usize;
+                }
+            }
+            std::process::exit(0);
+        }
+        b"@gen" => {
+            // write argv[3] bytes to stdout, then exit; argv[2] is only a tag
+            let mut left: usize = arg(3).parse().unwrap_or(0);
+            let chunk = vec![b'g'; 4096];
+            while left > 0 {
+                let k = left.min(chunk.len());
+                let w = unsafe { libc::write(1, chunk.as_ptr() as *const _, k) };
+                if w <= 0 {
+                    std::process::exit(1);
+                }
+                left -= w as usize;
+            }
+            std::process::exit(0);
+        }
         b"@script" => {
             let mut received: u64 = 0;
             for op in args.iter().skip(2) {
